@@ -12,6 +12,12 @@ def run(out, unit, tier, seed, workdir, overlay):
     binp = os.path.join(workdir, "asmdata_sm4.test")
     p = subprocess.run(["go", "test", "-c", "-vet=off", "-tags", "verif", "-overlay", overlay, "-o", binp, "./sm4/"], cwd=REPO, env=env, capture_output=True, text=True)
     if p.returncode != 0:
+        # declarations of sealAsm/openAsm/copyAsm/needExpand differ from the ones called directly: stub the adapters out
+        p2 = subprocess.run(["go", "test", "-c", "-vet=off", "-tags", "verif,verifnoasm", "-overlay", overlay, "-o", binp, "./sm4/"], cwd=REPO, env=env, capture_output=True, text=True)
+        if p2.returncode == 0:
+            out.notes.setdefault("degraded_builds", []).append("engine_asmdata: test binary built with tag verifnoasm (direct calls of sealAsm/openAsm/copyAsm/needExpand unavailable on this tree)")
+            p = p2
+    if p.returncode != 0:
         out.inconclusive.append("asmdata: build failed: " + (p.stdout + p.stderr)[-600:])
         return
     nm = subprocess.run(["go", "tool", "nm", "-size", "-n", binp], env=env, capture_output=True, text=True).stdout
